@@ -70,7 +70,13 @@ add_int_binop!(
             Err(ManagedXError::new("Modulo by zero", rt.clone())?)
         } else {
             rt.can_afford(b)?;
-            Ok(XValue::Int(a.clone() % b.clone()))
+            let r = a % b;
+            // floored modulo: a non-zero result takes the sign of the divisor
+            Ok(XValue::Int(if !r.is_zero() && r.is_negative() != b.is_negative() {
+                r + b.clone()
+            } else {
+                r
+            }))
         })
     }
 );
